@@ -146,12 +146,14 @@ SPEC = {
                               "Gfa.Bridge.Geometry.refkey_table", "Gfa.Bridge.Geometry.linkKey_table"]},
     },
     "C18": {
-        "LEAN": {"modules": ["GfaProofs.C18"], "support": ["GfaModel.Levels", "GfaProofs.C20"],
-                 "theorems": ["Gfa.C18.levels_agree_canon", "Gfa.C18.levels_agree_literal", "Gfa.C18.accept_mono",
+        "LEAN": {"modules": ["GfaProofs.C18", "GfaProofs.C18Line"], "support": ["GfaModel.Levels", "GfaProofs.C20"],
+                 "theorems": ["Gfa.C18.line_levels_canon", "Gfa.C18.line_levels_literal", "Gfa.C18.line_levels_123", "Gfa.C18.line_accept_mono",
+                              "Gfa.C18.line_accept_le", "Gfa.C18.levels_agree_canon", "Gfa.C18.levels_agree_literal", "Gfa.C18.accept_mono",
                               "Gfa.C18.invalid_set_L3", "Gfa.C18.invalid_write_L2", "Gfa.C18.invalid_validate",
                               "Gfa.C18.valid_never_rejected", "Gfa.C18.canon_idem", "Gfa.C18.get_preserves_canon", "Gfa.C18.get_val_noop", "Gfa.C18.intCodec_lawful",
                               "Gfa.C18.strCodec_lawful", "Gfa.C18.bytesCodec_lawful"]},
-        "ASSUMPTIONS": ["one field of one line; graph-level agreement across levels is decided by the oracle (obs equality for k=0..3)"],
+        "ASSUMPTIONS": ["the laws are proved for one field and lifted to a whole line (a list of fields with their own codecs and lazy-parsing flags); "
+                        "graph-level agreement across levels is decided by the oracle (obs equality for k=0..3, also after reading every field)"],
     },
     "C19": {
         "LEAN": {"modules": ["GfaProofs.C19", "GfaProofs.Bridge.Clone"], "support": ["GfaModel.Heap"],
